@@ -153,6 +153,8 @@ func c16Run(c *Ctx, cs c16Case, count bool, neighbours ...jnode) {
 		recv = stackage.And().Push("pre").SetReadOnly(true)
 	case "and-mutex":
 		recv = stackage.And().SetMutex().Push("pre")
+	case "and-mutex-policy": // locking and a push policy together: the appended element goes through both
+		recv = stackage.And().SetMutex().SetPushPolicy(func(...any) error { return nil }).Push("pre")
 	}
 	wasInit := recv.IsInit()
 	var before string
@@ -195,6 +197,15 @@ func c16Run(c *Ctx, cs c16Case, count bool, neighbours ...jnode) {
 	if p != "" {
 		c.Violation("panic:Marshal:"+panicSite(p), desc+" panicked: "+p, cs, size)
 		return
+	}
+	if wasInit {
+		if m := stackage.VerifDump(recv).Mtx; m != 0 {
+			if _, held := heldMutexes.Load(m); held {
+				heldMutexes.Delete(m)
+				c.Violation("lock-leaked:Marshal", desc+": the receiver's mutex is still held after Marshal returned (the next locking call blocks forever)", cs, size)
+				return
+			}
+		}
 	}
 	if err != nil {
 		c.Outcome("error:" + err.Error())
@@ -301,10 +312,13 @@ func c16Run(c *Ctx, cs c16Case, count bool, neighbours ...jnode) {
 		c.Violation("into-initialised:len", fmt.Sprintf("%s: Len went from %d to %d, want %+d", desc, lenBefore, recv.Len(), grow), cs, size)
 	case grow == 1:
 		v, _ := recv.Index(recv.Len() - 1)
-		_, isS := v.(stackage.Stack)
+		vs, isS := v.(stackage.Stack)
 		_, isC := v.(stackage.Condition)
 		if !isS && !isC {
 			c.Violation("into-initialised:type", fmt.Sprintf("%s: appended %T, want a Stack or Condition", desc, v), cs, size)
+		}
+		if _, known := c16Labels[strings.ToUpper(lab)]; known && isS && vs.Len() != len(eff)-1 {
+			c.Violation("element-count", fmt.Sprintf("%s: the appended Stack holds %d elements, want %d", desc, vs.Len(), len(eff)-1), cs, size)
 		}
 		if count {
 			c.Nontrivial(cs.In.String() + cs.Form + cs.Recv)
@@ -394,6 +408,23 @@ func c16Inputs(c *Ctx) []jnode {
 		out = append(out, l(s("AND"), l(s("LIST"), s("a")), lead, s("v"), l(s("OR"), s("b")), l(s("CONDITION"), s("k"), jnode{T: "op"}, s("v"))),
 			l(s("or"), lead, l(s("NOT"), lead, l(s("and"), s("z")))), l(s("LIST"), lead, lead, l(s("CONDITION"), s("k"), jnode{T: "uop"}, l(s("AND"), lead, l(s("OR"), s("q"))))))
 	}
+	// the long regime: one level holding many entries (label + n, unknown label + n, nested)
+	for _, n := range []int{14, 15, 16, 17, 32, 33, 70} {
+		var es []jnode
+		for i := 0; i < n; i++ {
+			switch i % 5 {
+			case 3:
+				es = append(es, jnode{T: "int"})
+			case 4:
+				es = append(es, jnode{T: "nil"})
+			default:
+				es = append(es, s(fmt.Sprintf("e%d", i)))
+			}
+		}
+		es[n-1] = s("last") // the final entry is a plain value, so that its loss shows in the count
+		out = append(out, l(append([]jnode{s("LIST")}, es...)...), l(append([]jnode{s("junk")}, es...)...), l(append([]jnode{s("and")}, es...)...),
+			l(s("OR"), l(append([]jnode{s("AND")}, es...)...), s("tail")), l(s("CONDITION"), s("k"), jnode{T: "op"}, l(append([]jnode{s("NOT")}, es...)...)))
+	}
 	// width up to 4/5 over a small alphabet
 	w := []jnode{s("AND"), s("x"), {T: "nil"}, l(), l(s("CONDITION"), s("k"), s("="), s("v")), {T: "cond0"}}
 	maxW := 4
@@ -420,7 +451,7 @@ func init() {
 	register(&Check{ID: "C16", Engine: "B", Run: func(c *Ctx) {
 		inputs := c16Inputs(c)
 		installLockModel()
-		recvs := []string{"zero", "and", "full", "read-only", "and-mutex"}
+		recvs := []string{"zero", "and", "full", "read-only", "and-mutex", "and-mutex-policy"}
 		forms := []string{"spread", "envelope"}
 		c.Rule = "every []any input of the bounded family (labels in any case, junk and empty strings, numbers, nil, typed nil pointers, valid / zero / user / empty operators and non-operators in the operator position, ready-made and zero Stacks and Conditions, empty and nested envelopes, CONDITION rows of length 1..6, nesting depth up to 3, width up to 4/5) x receiver {zero, initialised, full, read-only} x {Marshal(in...), Marshal(in)}; oracle: no panic; error, or an initialised receiver on which String/Unmarshal/IsEqual/Valid/Len/Kind return; label honoured case-insensitively; unknown leading string gives BASIC with all entries; initialised receiver grows by exactly one Stack/Condition; non-trivial = distinct inputs that were decoded"
 		c.Bound["inputs"] = len(inputs)
